@@ -266,6 +266,8 @@ def lim_setname(c, a):
         fid = L.Hopen(p, DFACC_CREATE, 0)
         L.Vinitialize(fid)
         vg = L.Vattach(fid, -1, b"w")
+        # (the other of the two is set to something short: name and class share the packing buffer)
+        (L.Vsetclass if kind == "vgname" else L.Vsetname)(vg, b"short")
         r = (L.Vsetname if kind == "vgname" else L.Vsetclass)(vg, given)
         ref = L.VQueryref(vg)
         L.Vdetach(vg)
